@@ -584,7 +584,11 @@ Fixpoint alias_final (rs : list rule) (fuel : nat) (n : list N) : list N :=
   match fuel with
   | O => n
   | S f => match last_def n rs with
-           | Some r => match alias_sup r with Some (tg, false) => alias_final rs f tg | _ => n end
+           | Some r => match alias_sup r with
+                       | Some (tg, false) => alias_final rs f tg
+                       | Some (tg, true) => tg        (* the Sequence wrapper of a suppressed reference keeps tg's name/class *)
+                       | None => n
+                       end
            | None => n
            end
   end.
@@ -594,12 +598,12 @@ Definition kx_rule (c : cfg) (t : tree) (r : rule) : Kinds.rule :=
   {| Kinds.r_attrs := match flat_map (flat_map asg_ops_rexpr) (r_body r) with [] => false | _ => true end;
      Kinds.r_body :=
        match alias_sup r with
-       | Some (tg, false) =>
-           match index_of (alias_final (t_rules t) (length (t_rules t)) tg) names with
+       | Some (tg, sup) =>
+           match index_of (if sup then tg else alias_final (t_rules t) (length (t_rules t)) tg) names with
            | Some k => Kinds.Alias k
            | None => Kinds.Body Kinds.Term
            end
-       | _ => Kinds.Body (kcollapse Kinds.Choice (map (fun s => kcollapse Kinds.Seq (map (kx_rexpr names) s)) (r_body r)))
+       | None => Kinds.Body (kcollapse Kinds.Choice (map (fun s => kcollapse Kinds.Seq (map (kx_rexpr names) s)) (r_body r)))
        end |}.
 
 Definition to_kinds (c : cfg) (t : tree) : list Kinds.rule :=
